@@ -927,3 +927,278 @@ Print Assumptions C02_bridge_pool_operands.
 Theorem C02_bridge_examples : X12.BridgeEx.bridge_nonvacuous.
 Proof. exact X12.BridgeEx.bridge_nonvacuous_holds. Qed.
 Print Assumptions C02_bridge_examples.
+
+(* ================================================================================================ *)
+(* Round 6, second layer — THE WRITTEN CLASS FILE read by C01's class-file reader model: modified UTF-8, the
+   constant pool, the class header (coq/X12/BridgeMutf8.v, BridgePool.v, BridgeClass.v). *)
+From FB Require C01.Mutf8 C01.Pool C01.Fmt C01.ClassFile C01.Attr C01.Tables X12.BridgeMutf8 X12.BridgePool X12.BridgeClass.
+
+(* C01's string decoder (the model of java_string's from_modified_utf8: valid standard UTF-8 is taken as it is,
+   otherwise the modified form is decoded and surrogate pairs are joined) applied to C02's encoder (JVMS 4.4.7):
+   the UTF-16 form with pairs joined for EVERY list of code points below 0x110000 — NUL, lone surrogates and
+   supplementary characters included —, hence the list itself unless it holds a high-surrogate code point
+   immediately followed by a low-surrogate one (nsp: the one ambiguity of the format) *)
+Theorem C02_bridge_mutf8 : forall s, cps_ok s ->
+  C01.Mutf8.mutf8_dec (mutf8 s) = Ok (join (utf16 s)) /\
+  (nsp s = true -> C01.Mutf8.mutf8_dec (mutf8 s) = Ok s).
+Proof. exact (fun s H => conj (X12.BridgeMutf8.mutf8_dec_mutf8_general s H) (X12.BridgeMutf8.mutf8_dec_mutf8 s H)). Qed.
+Print Assumptions C02_bridge_mutf8.
+
+(* the bytes PoolWrite::write emits for a pool built by put ARE C01's encoding of the translated entries (same
+   tags, numbers Z -> N), which fit their fields … *)
+Theorem C02_bridge_pool_bytes : forall p pb,
+  PInv p -> Forall made (p_inner p) -> pool_bytes p = Ok pb ->
+  exists cs, rev (p_inner p) = map mk cs /\ Forall centry_ok cs /\
+             pb = C01.ClassFile.enc_pool (map X12.BridgePool.tr_centry cs) /\
+             C01.ClassFile.pool_fits (map X12.BridgePool.tr_centry cs) = true.
+Proof. exact X12.BridgePool.pool_bytes_enc. Qed.
+Print Assumptions C02_bridge_pool_bytes.
+
+(* … so C01's PoolRead::read model reads them to [rpool dec cs]: the translated entries with every Utf8 decoded,
+   Long / Double followed by an unusable slot; and the same entry list is what C02's own decoder sees (agrees) *)
+Theorem C02_bridge_pool_read : forall dec p pb rest,
+  PInv p -> Forall made (p_inner p) -> pool_bytes p = Ok pb ->
+  exists cs, rev (p_inner p) = map mk cs /\ Forall centry_ok cs /\
+             agrees p (cslots cs 1) /\
+             (X12.BridgePool.utf8s_decode dec cs ->
+              C01.ClassFile.rd_pool dec (pb ++ rest) = Ok (X12.BridgePool.rpool dec cs, rest)).
+Proof. exact X12.BridgePool.pool_read. Qed.
+Print Assumptions C02_bridge_pool_read.
+
+(* index by index: what C02's kind-checked decoder finds at an index, C01's accessor of the same kind finds at
+   the same index of the pool it read, strings decoded (D = decode or, for an undecodable string, empty) *)
+Theorem C02_bridge_pool_indices : forall dec cs,
+  let c := cslots cs 1 in
+  let P := X12.BridgePool.rpool dec cs in
+  let D := X12.BridgePool.sdec dec in
+  (forall i s, get_utf8 c i = Some s -> C01.Pool.get_utf8 P (Z.to_N i) = Ok (D s)) /\
+  (forall i s, get_class c i = Some s -> C01.Pool.get_class P (Z.to_N i) = Ok (D s)) /\
+  (forall i n d, get_nat c i = Some (n, d) -> C01.Pool.get_nt P (Z.to_N i) = Ok (D n, D d)) /\
+  (forall i r, get_fieldref c i = Some r ->
+     C01.Pool.get_field_ref P (Z.to_N i) = Ok (C01.Pool.VField (D (mr_class r)) (D (mr_name r)) (D (mr_desc r)))) /\
+  (forall i r, get_methodref c i = Some r ->
+     C01.Pool.get_method_ref P (Z.to_N i) = Ok (C01.Pool.VMethod (D (mr_class r)) (D (mr_name r)) (D (mr_desc r)) false)) /\
+  (forall i r, get_imethodref c i = Some r ->
+     C01.Pool.get_imethod_ref P (Z.to_N i) = Ok (C01.Pool.VMethod (D (mr_class r)) (D (mr_name r)) (D (mr_desc r)) true)) /\
+  (forall i h, get_handle c i = Some h -> C01.Pool.get_method_handle P (Z.to_N i) = Ok (X12.BridgePool.handle_val dec h)) /\
+  (forall i v, get_cvalue c i = Some v -> C01.Pool.get_constant_value P (Z.to_N i) = Ok (X12.BridgePool.cvalue_val dec v)) /\
+  (forall i s, get_string c i = Some s -> X12.BridgePool.get_string_r P (Z.to_N i) = Ok (D s)) /\
+  (forall i s, get_method_type c i = Some s -> X12.BridgePool.get_mtype_r P (Z.to_N i) = Ok (D s)) /\
+  (forall i s, get_module c i = Some s -> X12.BridgePool.get_module_r P (Z.to_N i) = Ok (D s)) /\
+  (forall i s, get_package c i = Some s -> X12.BridgePool.get_package_r P (Z.to_N i) = Ok (D s)).
+Proof.
+  exact (fun dec cs => conj (X12.BridgePool.ag_utf8 dec cs) (conj (X12.BridgePool.ag_class dec cs) (conj (X12.BridgePool.ag_nat dec cs)
+    (conj (X12.BridgePool.ag_fieldref dec cs) (conj (X12.BridgePool.ag_methodref dec cs) (conj (X12.BridgePool.ag_imethodref dec cs)
+    (conj (X12.BridgePool.ag_handle dec cs) (conj (X12.BridgePool.ag_cvalue dec cs) (conj (X12.BridgePool.ag_string dec cs)
+    (conj (X12.BridgePool.ag_mtype dec cs) (conj (X12.BridgePool.ag_module dec cs) (X12.BridgePool.ag_package dec cs)))))))))))).
+Qed.
+Print Assumptions C02_bridge_pool_indices.
+
+(* every `refers g x p0 i` fact of C02 (what the index a put returned designates in every later pool:
+   C02_put_class_refers, C02_put_methodref_refers, …) holds of the pool C01's reader reads from the written bytes *)
+Theorem C02_bridge_refers_read : forall (A B : Type) (g : cpool -> Z -> option A) (G : C01.Pool.pool -> N -> res B) (val : A -> B) dec,
+  (forall cs i x, g (cslots cs 1) i = Some x -> G (X12.BridgePool.rpool dec cs) (Z.to_N i) = Ok (val x)) ->
+  forall x p0 i p pb rest,
+  refers g x p0 i -> pool_ext p0 p ->
+  PInv p -> Forall made (p_inner p) -> pool_bytes p = Ok pb ->
+  exists cs, (X12.BridgePool.utf8s_decode dec cs ->
+              C01.ClassFile.rd_pool dec (pb ++ rest) = Ok (X12.BridgePool.rpool dec cs, rest)) /\
+             G (X12.BridgePool.rpool dec cs) (Z.to_N i) = Ok (val x).
+Proof. exact (@X12.BridgePool.refers_read). Qed.
+Print Assumptions C02_bridge_refers_read.
+
+(* THE CLASS HEADER.  [read_head] is the first part of C01's read_class (magic, version gate, constant pool,
+   access_flags, this_class, super_class, interfaces): C02_bridge_read_head_is_read_class.  For every tree
+   satisfying cclass_ok whose version passes the reader's gate and whose pool strings decode, reading what
+   write_class_aux wrote yields the tree's version, the pool as above, the defined bits of the access flags, the
+   class name, the super class (or none) and the interfaces in order — every name decoded from the Utf8 put. *)
+Theorem C02_bridge_read_head_is_read_class : forall impl dec s minor major p head s5,
+  X12.BridgeClass.read_head impl dec s = Ok (minor, major, p, head, s5) ->
+  C01.ClassFile.read_class impl dec s =
+  Base.Str.bind (C01.ClassFile.skip_members s5) (fun s6 =>
+  Base.Str.bind (C01.ClassFile.skip_members s6) (fun s7 =>
+  Base.Str.bind (C01.Fmt.rd_fmt impl dec (C01.ClassFile.acc p) C01.ClassFile.class_attrs_fmt s7) (fun '(attrs, _) =>
+  Base.Str.bind (C01.Fmt.rd_fmt impl dec (C01.ClassFile.acc p) C01.ClassFile.fields_fmt s5) (fun '(fields, s8) =>
+  Base.Str.bind (C01.Fmt.rd_fmt impl dec (C01.ClassFile.acc p) C01.ClassFile.methods_fmt s8) (fun '(methods, _) =>
+  C01.ClassFile.build_class impl p minor major head attrs fields methods))))).
+Proof. exact X12.BridgeClass.read_class_head. Qed.
+Print Assumptions C02_bridge_read_head_is_read_class.
+
+Theorem C02_bridge_class_head : forall impl dec t bs aux,
+  cclass_ok t = true -> write_class_aux t = WOK (bs, aux) ->
+  C01.Attr.header_ok C01.Tables.magic (Z.to_N (k_minor t)) (Z.to_N (k_major t)) = true ->
+  X12.BridgeClass.pool_utf8_ok dec (a_pool aux) = true ->
+  exists cs tail,
+    rev (p_inner (a_pool aux)) = map mk cs /\
+    X12.BridgeClass.read_head impl dec bs
+    = Ok (Z.to_N (k_minor t), Z.to_N (k_major t), X12.BridgePool.rpool dec cs,
+          C01.Fmt.VSeq [C01.Fmt.VN (C01.Attr.access_back 0%N (Z.to_N (k_access t)));
+                        C01.Fmt.VC (C01.Pool.VClass (X12.BridgePool.sdec dec (k_name t)));
+                        C01.Fmt.VO (option_map (fun n => C01.Pool.VClass (X12.BridgePool.sdec dec n)) (k_super t));
+                        C01.Fmt.VList (map (fun n => C01.Fmt.VC (C01.Pool.VClass (X12.BridgePool.sdec dec n))) (k_interfaces t))],
+          tail).
+Proof. exact X12.BridgeClass.class_head_read. Qed.
+Print Assumptions C02_bridge_class_head.
+
+(* non-vacuity: a class named e-acute NUL U+1F600 with a super class and two interfaces (one named with the euro
+   sign), version 61.0, written by write_class_aux and read by read_head with C01's decoder; decoder examples
+   incl. the ambiguity (a split surrogate pair reads back joined) *)
+Theorem C02_bridge_class_examples :
+  (exists bs aux cs tail,
+     write_class_aux X12.BridgeClass.ex_hd = WOK (bs, aux) /\ cclass_ok X12.BridgeClass.ex_hd = true /\
+     X12.BridgeClass.pool_utf8_ok C01.Mutf8.mutf8_dec (a_pool aux) = true /\
+     X12.BridgeClass.read_head true C01.Mutf8.mutf8_dec bs
+     = Ok (0%N, 61%N, X12.BridgePool.rpool C01.Mutf8.mutf8_dec cs,
+           C01.Fmt.VSeq [C01.Fmt.VN 33%N; C01.Fmt.VC (C01.Pool.VClass [233; 0; 128512]%N); C01.Fmt.VO (Some (C01.Pool.VClass [79]%N));
+                         C01.Fmt.VList [C01.Fmt.VC (C01.Pool.VClass [73]%N); C01.Fmt.VC (C01.Pool.VClass [8364]%N)]],
+           tail)) /\
+  (C01.Mutf8.mutf8_dec (mutf8 [0; 65; 233; 8364; 128512; 55357; 65; 56832]%N) = Ok [0; 65; 233; 8364; 128512; 55357; 65; 56832]%N
+   /\ nsp [0; 65; 233; 8364; 128512; 55357; 65; 56832]%N = true
+   /\ nsp [55357; 56832]%N = false /\ C01.Mutf8.mutf8_dec (mutf8 [55357; 56832]%N) = Ok [128512]%N
+   /\ mutf8 [55357; 56832]%N = mutf8 [128512]%N).
+Proof. exact (conj X12.BridgeClass.class_head_example X12.BridgeMutf8.mutf8_dec_examples). Qed.
+Print Assumptions C02_bridge_class_examples.
+
+(* ================================================================================================ *)
+(* Round 6, third layer — member headers, attribute framing, the Code attribute wrapper
+   (coq/X12/BridgeMembers.v, BridgeCode.v). *)
+From FB Require C01.Model X12.BridgeMembers X12.BridgeCode X12.BridgeDyn.
+
+(* DECODER TO READER (any byte string).  Whatever C02's strict JVMS decoder accepts as a list of attributes / a
+   list of members, C01's length-driven first pass (skip_attrs, skip_members) traverses to the same end — the
+   attribute_length fields are exact because the decoder demands it —, and the member headers read with C01's
+   format reader (access flags through the flag table, name and descriptor through the Utf8 accessor) are the
+   decoder's, strings decoded.  [rd_headers] = C01's member loop reduced to the header: rd_fmt on the first three
+   components of the member format, then skip_attrs; it ends where skip_members ends, and its header is what
+   the full member format delivers in its first three components. *)
+Theorem C02_bridge_decoder_to_reader :
+  (forall (A : Type) c (body : bytes -> option (parser A)) unk s xs r,
+     p_list16 (p_attr_with c body unk) s = Some (xs, r) -> C01.ClassFile.skip_attrs s = Ok r) /\
+  (forall impl dec cs l k s ms r, p_list16 (p_member l (cslots cs 1)) s = Some (ms, r) ->
+     X12.BridgeMembers.rd_headers impl dec (C01.ClassFile.acc (X12.BridgePool.rpool dec cs)) k s
+     = Ok (map (X12.BridgeMembers.hdr_of dec k) ms, r)) /\
+  (forall impl dec rs k s hs r, X12.BridgeMembers.rd_headers impl dec rs k s = Ok (hs, r) -> C01.ClassFile.skip_members s = Ok r) /\
+  (forall impl dec rs k att s v1 v2 v3 v4 r,
+     C01.Fmt.rd_fmt impl dec rs (C01.Fmt.FSeq [C01.Fmt.FFlags k; C01.Fmt.FIdx 8%N; C01.Fmt.FIdx 8%N; att]) s
+     = Ok (C01.Fmt.VSeq [v1; v2; v3; v4], r) ->
+     exists s3, C01.Fmt.rd_fmt impl dec rs (X12.BridgeMembers.hdr_fmt k) s = Ok (C01.Fmt.VSeq [v1; v2; v3], s3) /\
+                C01.Fmt.rd_fmt impl dec rs att s3 = Ok (v4, r)).
+Proof.
+  exact (conj (@X12.BridgeMembers.attrs_skip) (conj X12.BridgeMembers.members_read
+          (conj X12.BridgeMembers.rd_headers_skip X12.BridgeMembers.hdr_of_member_fmt))).
+Qed.
+Print Assumptions C02_bridge_decoder_to_reader.
+
+(* THE WRITTEN CLASS: after the head, the fields and the methods are read header by header to the tree's (flags,
+   name, descriptor) in order; the first pass of read_class passes over the fields, over the methods, lands on
+   the class attributes, and skipping those ends exactly at the end of the file *)
+Theorem C02_bridge_class_members : forall impl dec t bs aux,
+  cclass_ok t = true -> write_class_aux t = WOK (bs, aux) ->
+  C01.Attr.header_ok C01.Tables.magic (Z.to_N (k_minor t)) (Z.to_N (k_major t)) = true ->
+  X12.BridgeClass.pool_utf8_ok dec (a_pool aux) = true ->
+  exists cs s5 s6 s7,
+    rev (p_inner (a_pool aux)) = map mk cs /\
+    X12.BridgeClass.read_head impl dec bs
+    = Ok (Z.to_N (k_minor t), Z.to_N (k_major t), X12.BridgePool.rpool dec cs, X12.BridgeClass.head_val dec t, s5) /\
+    X12.BridgeMembers.rd_headers impl dec (C01.ClassFile.acc (X12.BridgePool.rpool dec cs)) 1%N s5
+      = Ok (map (fun f => X12.BridgeMembers.hdr dec 1%N (f_access f) (f_name f) (f_desc f)) (k_fields t), s6) /\
+    X12.BridgeMembers.rd_headers impl dec (C01.ClassFile.acc (X12.BridgePool.rpool dec cs)) 2%N s6
+      = Ok (map (fun m => X12.BridgeMembers.hdr dec 2%N (md_access m) (md_name m) (md_desc m)) (k_methods t), s7) /\
+    C01.ClassFile.skip_members s5 = Ok s6 /\ C01.ClassFile.skip_members s6 = Ok s7 /\ C01.ClassFile.skip_attrs s7 = Ok [].
+Proof. exact X12.BridgeMembers.class_members_read. Qed.
+Print Assumptions C02_bridge_class_members.
+
+(* THE Code ATTRIBUTE, decoder to reader: what C02's decoder accepts as a Code payload, C01's Code format (its
+   first four components: code_prefix_fmt) reads to the same max_stack, max_locals, code array and exception
+   entries, and skip_attrs passes over the attributes of the Code attribute to the same end *)
+Theorem C02_bridge_code_read :
+  (forall impl dec cs s k r, p_code (cslots cs 1) s = Some (k, r) ->
+     exists s4,
+       C01.Fmt.rd_fmt impl dec (C01.ClassFile.acc (X12.BridgePool.rpool dec cs)) X12.BridgeCode.code_prefix_fmt s
+       = Ok (C01.Fmt.VSeq [C01.Fmt.VN (Z.to_N (dc_max_stack k)); C01.Fmt.VN (Z.to_N (dc_max_locals k)); C01.Fmt.VB (dc_code k);
+                           C01.Fmt.VList (map (X12.BridgeCode.exc_val dec) (dc_exceptions k))], s4) /\
+       C01.ClassFile.skip_attrs s4 = Ok r) /\
+  (forall impl dec rs s v r, C01.Fmt.rd_fmt impl dec rs C01.ClassFile.code_fmt s = Ok (v, r) ->
+     exists vs att s4, v = C01.Fmt.VSeq (vs ++ [att]) /\
+       C01.Fmt.rd_fmt impl dec rs X12.BridgeCode.code_prefix_fmt s = Ok (C01.Fmt.VSeq vs, s4) /\
+       C01.Fmt.rd_fmt impl dec rs (C01.Fmt.FVec16 (C01.Fmt.FAttr C01.ClassFile.code_sel)) s4 = Ok (att, r)).
+Proof. exact (conj X12.BridgeCode.code_read X12.BridgeCode.code_prefix_of_code_fmt). Qed.
+Print Assumptions C02_bridge_code_read.
+
+(* THE Code ATTRIBUTE, writer to reader, joining C02_bridge_write_read: for the payload write_code_attr writes
+   (ccode_ok; any state with the writer's invariant; p = any later pool, e.g. the final one, with its entry list cs):
+   the code array w and the exception triples C01 reads from the payload are what C02's layout-level write_code
+   answers on the lowered body with the exception labels, and C01's read_code on them delivers the translated
+   instruction list with the exception ranges on the translated instructions *)
+Theorem C02_bridge_code_attr : forall impl dec c s payload w labs pos s' cs p,
+  ccode_ok c = true -> winv s ->
+  write_code_attr c s = WOK ((payload, (w, labs, pos)), s') ->
+  pool_ext (w_pool s') p -> agrees p (cslots cs 1) ->
+  exists ms ml es Wd ex,
+    c_max c = Some (ms, ml) /\ length es = length (c_insns c) /\ unique_labels es (c_last c) /\
+    write_code true es (c_last c) (X12.BridgeCode.exc_tables c)
+    = Some (OK (w, Wd, {| r_exc := map X12.BridgeCode.exc3z ex; r_offs := []; r_ranges := [] |})) /\
+    (forall rest, exists s4,
+       C01.Fmt.rd_fmt impl dec (C01.ClassFile.acc (X12.BridgePool.rpool dec cs)) X12.BridgeCode.code_prefix_fmt (payload ++ rest)
+       = Ok (C01.Fmt.VSeq [C01.Fmt.VN (Z.to_N ms); C01.Fmt.VN (Z.to_N ml); C01.Fmt.VB w;
+                           C01.Fmt.VList (map (X12.BridgeCode.exc_val dec) ex)], s4) /\
+       C01.ClassFile.skip_attrs s4 = Ok rest) /\
+    C01.Pool.map_res C01.ClassFile.exc_triple (map (X12.BridgeCode.exc_val dec) ex) = Ok (map X12.BridgeCode.exc3 ex) /\
+    (let chs := chs_run Wd 0%N 0 [] es in
+     X12.BridgeDefs.body_in chs es = true -> X12.BridgeDefs.refs_carried es = true ->
+     X12.BridgeDefs.tables_carried es (X12.BridgeCode.exc_tables c) = true ->
+     C01.Model.read_code {| C01.Model.ci_code := w; C01.Model.ci_exc := map X12.BridgeCode.exc3 ex; C01.Model.ci_lines := [];
+                            C01.Model.ci_ranges := []; C01.Model.ci_frames := []; C01.Model.ci_cldc := None; C01.Model.ci_points := [] |}
+     = Ok (C01.Theory4.expected (X12.BridgeDefs.tr_body chs es (c_last c))
+             (X12.BridgeDefs.tr_tables (X12.BridgeDefs.T_of chs es (c_last c)) (X12.BridgeCode.exc_tables c) 0 []))).
+Proof. exact X12.BridgeCode.code_attr_bridge. Qed.
+Print Assumptions C02_bridge_code_attr.
+
+(* non-vacuity on C02's example class (a field with attributes; a method whose Code attribute holds new, ldc, a
+   conditional, invokedynamic, return, an exception range, line numbers, a local variable, frames): the headers
+   read back, the first pass ends at the end of the file; the lowered body of the example method lies inside
+   the code-array bridge *)
+Theorem C02_bridge_members_examples :
+  (exists bs aux cs s5 s6 s7,
+     write_class_aux ex_class = WOK (bs, aux) /\
+     X12.BridgeClass.read_head true C01.Mutf8.mutf8_dec bs
+     = Ok (0%N, 61%N, X12.BridgePool.rpool C01.Mutf8.mutf8_dec cs, X12.BridgeClass.head_val C01.Mutf8.mutf8_dec ex_class, s5) /\
+     X12.BridgeMembers.rd_headers true C01.Mutf8.mutf8_dec (C01.ClassFile.acc (X12.BridgePool.rpool C01.Mutf8.mutf8_dec cs)) 1%N s5
+       = Ok ([C01.Fmt.VSeq [C01.Fmt.VN 25%N; C01.Fmt.VC (C01.Pool.VUtf8 [102]%N); C01.Fmt.VC (C01.Pool.VUtf8 [73]%N)]], s6) /\
+     X12.BridgeMembers.rd_headers true C01.Mutf8.mutf8_dec (C01.ClassFile.acc (X12.BridgePool.rpool C01.Mutf8.mutf8_dec cs)) 2%N s6
+       = Ok ([C01.Fmt.VSeq [C01.Fmt.VN 9%N; C01.Fmt.VC (C01.Pool.VUtf8 [109]%N); C01.Fmt.VC (C01.Pool.VUtf8 [40; 41; 86]%N)]], s7) /\
+     C01.ClassFile.skip_members s5 = Ok s6 /\ C01.ClassFile.skip_members s6 = Ok s7 /\ C01.ClassFile.skip_attrs s7 = Ok []) /\
+  (ccode_ok ex_code = true /\ X12.BridgeCode.ex_code_check = true).
+Proof. exact (conj X12.BridgeCode.members_example X12.BridgeCode.code_example). Qed.
+Print Assumptions C02_bridge_members_examples.
+
+(* LOADABLE CONSTANTS through the BootstrapMethods table (coq/X12/BridgeDyn.v): the writer side is C02's ldenotes
+   (C02_bootstrap_resolves), the reader side C01's get_loadable / get_invoke_dynamic (C01_dynamic_resolution).  With
+   a reader-side table B that agrees with the writer's table (same argument indices, a handle index at which the
+   decoder finds the entry's handle: what the written attribute holds, C02_bridge_bootstrap_table), the reader
+   resolves the index put_loadable returned to the tree's constant — strings decoded; for a Dynamic: name and
+   descriptor from its own NameAndType, handle and arguments from its bootstrap method, recursively, for every
+   nesting below the fuel (66 at an ldc, 65 for the arguments of an invokedynamic) *)
+Theorem C02_bridge_loadable_read : forall dec cs p tbl B,
+  agrees p (cslots cs 1) -> X12.BridgeDyn.table_agrees cs tbl B ->
+  forall l x fuel, ldenotes p tbl l x -> (X12.BridgeDyn.ldepth l < fuel)%nat ->
+  C01.Pool.get_loadable fuel (X12.BridgePool.rpool dec cs) B (Z.to_N x) = Ok (X12.BridgeDyn.lval dec l).
+Proof. exact X12.BridgeDyn.loadable_read. Qed.
+Print Assumptions C02_bridge_loadable_read.
+
+Theorem C02_bridge_indy_read : forall dec cs p tbl B x b nt n d h idxs args,
+  agrees p (cslots cs 1) -> X12.BridgeDyn.table_agrees cs tbl B ->
+  resolves p x (CInvokeDynamic b nt) -> refers get_nat (n, d) p nt -> 0 <= b ->
+  nth_error tbl (Z.to_nat b) = Some (h, idxs) -> Forall2 (ldenotes p tbl) args idxs ->
+  Forall (fun a => (X12.BridgeDyn.ldepth a < pred C01.Pool.nesting_fuel)%nat) args ->
+  C01.Pool.get_invoke_dynamic (X12.BridgePool.rpool dec cs) B (Z.to_N x)
+  = Ok (C01.Pool.VIndy (X12.BridgePool.sdec dec n) (X12.BridgePool.sdec dec d) (X12.BridgePool.handle_val dec h)
+                       (map (X12.BridgeDyn.lval dec) args)).
+Proof. exact X12.BridgeDyn.indy_read. Qed.
+Print Assumptions C02_bridge_indy_read.
+
+Theorem C02_bridge_bootstrap_table : forall cs s tbl r,
+  p_list16 (X12.BridgeDyn.p_bsm (cslots cs 1)) s = Some (tbl, r) ->
+  exists B, length B = length tbl /\ X12.BridgeDyn.table_agrees cs tbl B.
+Proof. exact X12.BridgeDyn.table_from_decoder. Qed.
+Print Assumptions C02_bridge_bootstrap_table.
